@@ -200,7 +200,17 @@ def guards_rule(ck, prog, mg, fname, info):
 def _cmp_width(g):
     b, i = g.cond.node
     if i == "T":
-        return None
+        # the comparison is made by a private predicate (`is_canonical(value)`): its width is the width of the comparison in there
+        t = g.fn.term(b)
+        h = g.fn.prog.fns.get((t.get("fn") or {}).get("def"))
+        if h is None:
+            return None
+        from ..cfg import trace_cond
+        hc = trace_cond(h, {"copy": {"l": 0}})
+        if hc.kind != "cmp" or hc.node is None or hc.node[1] == "T":
+            return None
+        ty = h.stmts(hc.node[0])[hc.node[1]]["rv"].get("ty", "")
+        return {"u8": 8, "u16": 16, "u32": 32, "u64": 64, "u128": 128, "usize": 64}.get(ty)
     s = g.fn.stmts(b)[i]
     ty = s["rv"].get("ty", "")
     return {"u8": 8, "u16": 16, "u32": 32, "u64": 64, "u128": 128, "usize": 64}.get(ty)
